@@ -133,7 +133,7 @@ theorem C04_app_slots_witness :
         { nodes := [{ index := 0, cores := [.free], gpus := [], lfs := 0, mem := 0 }] } true
         [{ incoming := [.sched [{ uid := 0, ranks := 1, cpr := 1, gpr := 0, lfs := 0, mem := 0,
                                    app := some [{ node := 0, cores := [0], gpus := [], lfs := 0, mem := 0 }] }]],
-           unsched := [0] },
+           unsched := [[0]] },
          { incoming := [.sched [{ uid := 1, ranks := 1, cpr := 1, gpr := 0, lfs := 0, mem := 0 }]] },
          { incoming := [.sched [{ uid := 2, ranks := 1, cpr := 1, gpr := 0, lfs := 0, mem := 0 }]] }] []).2.2
       = [[.adv 0 "AGENT_EXECUTING_PENDING"], [.adv 1 "AGENT_EXECUTING_PENDING"], [.adv 2 "FAILED"]] := by
